@@ -47,10 +47,10 @@ Definition ev_clean_b (o : sid) (ev : event) : bool :=
   | _ => true
   end.
 
-Lemma ev_ok_b_spec : forall o evs, forallb (ev_ok_b o) evs = true -> Forall (ev_ok o) evs.
+(* ev_ok_b tests the strict form (cmd_loud_for): it does not look at the state *)
+Lemma ev_ok_b_one : forall o ev w, ev_ok_b o ev = true -> ev_ok o w ev.
 Proof.
-  intros o. induction evs as [|ev evs IH]; intros H; constructor; cbn [forallb] in H; apply andb_true_iff in H as [H1 H2]; auto.
-  destruct ev; cbn in *; auto. apply andb_true_iff in H1 as [Ha Hb]. split; auto. now apply Nat.leb_le.
+  intros o ev w H1. destruct ev; cbn in *; auto. apply andb_true_iff in H1 as [Ha Hb]. split; [now left|now apply Nat.leb_le].
 Qed.
 
 Lemma ev_clean_b_one : forall o ev w, ev_clean_b o ev = true -> ev_clean o w ev.
@@ -63,10 +63,11 @@ Proof.
   - destruct c; try discriminate. eauto.
 Qed.
 
-Lemma ev_clean_b_spec : forall o evs w, forallb (ev_clean_b o) evs = true -> clean_wrun fx o w evs.
+Lemma ok_wrun_b_spec : forall o evs w, forallb (ev_ok_b o) evs = true -> forallb (ev_clean_b o) evs = true -> ok_wrun fx o w evs.
 Proof.
-  intros o. induction evs as [|ev evs IH]; intros w H; [exact I|]. cbn [forallb] in H. apply andb_true_iff in H as [H1 H2].
-  split; [now apply ev_clean_b_one|now apply IH].
+  intros o. induction evs as [|ev evs IH]; intros w H H'; [exact I|]. cbn [forallb] in H, H'.
+  apply andb_true_iff in H as [H1 H2]. apply andb_true_iff in H' as [H3 H4].
+  split; [now apply ev_ok_b_one|split; [now apply ev_clean_b_one|now apply IH]].
 Qed.
 
 Fixpoint wf_wrun_b (w : world) (evs : list event) : bool :=
@@ -90,10 +91,10 @@ Definition premises_b (evs : list event) (o : sid) : bool :=
   && N.ltb (N.of_nat (run_budget evs)) 2147483647.
 
 Lemma premises_b_spec : forall evs o, premises_b evs o = true ->
-  wf_wrun fx empty_world evs /\ Forall (ev_ok o) evs /\ clean_wrun fx o empty_world evs /\ small (run_budget evs).
+  wf_wrun fx empty_world evs /\ ok_wrun fx o empty_world evs /\ small (run_budget evs).
 Proof.
   intros evs o H. unfold premises_b in H. repeat (apply andb_true_iff in H as [H ?]).
-  split; [now apply wf_wrun_b_spec|split; [now apply ev_ok_b_spec|split; [now apply ev_clean_b_spec|]]].
+  split; [now apply wf_wrun_b_spec|split; [now apply ok_wrun_b_spec|]].
   unfold small. now apply N.ltb_lt.
 Qed.
 
